@@ -39,7 +39,8 @@ EMPTY_CORE = ('<?xml version="1.0" encoding="UTF-8" standalone="yes"?>\n<cp:core
 # text: class sequences <-> concrete strings.  The representative of class c at absolute position i is REPS[c][i % len];
 # a string projects to its class runs only if it is exactly the concretisation of those runs (else opaque class 9), so
 # the projection is injective on the strings the driver assigns.
-REPS = {1: "aZ09qM", 2: "<&>\"'", 3: " \t\r\n", 4: "\u00e9\u00df\u4e2d\u0085\u2028\ufffd\ud7ff\ue000", 5: "\U0001F600\U00010000\U0010FFFF"}
+REPS = {1: "aZ09qM", 2: "<&>\"'", 3: " \t\r\n", 4: "\u00e9\u00df\u4e2d\u0085\u2028\ufffd\ud7ff\ue000", 5: "\U0001F600\U00010000\U0010FFFF",
+        6: "_xABCD_"}      # looks like the OOXML escape of U+ABCD; the class is only used in runs of 7k characters at 7-aligned positions
 _CLS = {ch: c for c, reps in REPS.items() for ch in reps}
 
 
